@@ -297,14 +297,32 @@ func (c *Ctx) execInstr(fr *Frame, b *ssa.BasicBlock, idx int, in ssa.Instructio
 					}
 				}
 				if ok {
-					st.vars[c.frameVarKey(fr, x.Object().Name())] = varBinding{val: v, isAddr: x.IsAddr, ty: x.Object().Type()}
+					key := c.frameVarKey(fr, x.Object().Name())
+					if old, has := st.vars[key]; has && old.isAddr && !x.IsAddr {
+						// address-taken variable: keep the address binding (its value is read from current memory)
+					} else {
+						st.vars[key] = varBinding{val: v, isAddr: x.IsAddr, ty: x.Object().Type()}
+					}
 				}
 			}
 		}
 		return false
 	case *ssa.Alloc:
 		elemT := x.Type().Underlying().(*types.Pointer).Elem()
-		a := c.alloc(st, elemT, true)
+		var a T
+		if nonEscaping(x) {
+			// a local whose address never escapes lives in its own (negative-id) object: no pointer
+			// in memory can alias it, callees and loop havocs cannot touch it unless listed
+			c.counter++
+			a = T{S: fmt.Sprintf("(base (- %d))", 100000+c.counter), So: "Addr", Fresh: true, NonNil: true}
+			if arr, ok := elemT.Underlying().(*types.Array); ok && arr.Len() > 16 {
+				c.zeroArray(st, a.S, arr.Elem())
+			} else {
+				c.store(st, a.S, elemT, c.zero(elemT))
+			}
+		} else {
+			a = c.alloc(st, elemT, true)
+		}
 		a.Ty = x.Type()
 		c.bind(st, fr, x, a)
 		if x.Comment != "" {
@@ -818,9 +836,9 @@ func (c *Ctx) execMakeInterface(st *State, fr *Frame, x *ssa.MakeInterface) {
 		c.bind(st, fr, x, T{S: c.define(st, "if", "Iface", fmt.Sprintf("(mk_iface %d %s)", tag, v.S)), So: "Iface", Ty: x.Type(), Dyn: dt, Fresh: v.Fresh})
 		return
 	}
-	// value type: box into a fresh immutable cell
+	// value type: box into a fresh immutable cell (box memories are constants: never havocked)
 	box := c.alloc(st, dt, false)
-	c.store(st, box.S, dt, v.S)
+	st.assume("(= " + c.loadWith(c.boxMem, box.S, dt) + " " + v.S + ")")
 	c.bind(st, fr, x, T{S: c.define(st, "if", "Iface", fmt.Sprintf("(mk_iface %d %s)", tag, box.S)), So: "Iface", Ty: x.Type(), Dyn: dt, Fresh: true})
 }
 
@@ -844,7 +862,7 @@ func (c *Ctx) execTypeAssert(st *State, fr *Frame, x *ssa.TypeAssert) {
 		if _, isPtr := at.Underlying().(*types.Pointer); isPtr {
 			val = T{S: "(ipay " + v.S + ")", So: "Addr", Ty: at}
 		} else {
-			val = c.load(st, "(ipay "+v.S+")", at)
+			val = c.loadBox(st, "(ipay "+v.S+")", at)
 		}
 	}
 	okN := c.define(st, "ok", "Bool", ok)
@@ -1001,4 +1019,45 @@ func (c *Ctx) execPanic(st *State, fr *Frame, x *ssa.Panic) {
 		return
 	}
 	c.oblige(st, fr, x, "panic", "explicit panic is unreachable", goal, nil, nil)
+}
+
+// nonEscaping: the address of the Alloc is only used for field/element addressing, loads and stores.
+func nonEscaping(a *ssa.Alloc) bool {
+	seen := map[ssa.Value]bool{}
+	var ok func(v ssa.Value) bool
+	ok = func(v ssa.Value) bool {
+		if seen[v] {
+			return true
+		}
+		seen[v] = true
+		refs := v.Referrers()
+		if refs == nil {
+			return false
+		}
+		for _, r := range *refs {
+			switch x := r.(type) {
+			case *ssa.DebugRef:
+			case *ssa.UnOp:
+				if x.Op != token.MUL {
+					return false
+				}
+			case *ssa.Store:
+				if x.Val == v {
+					return false
+				}
+			case *ssa.FieldAddr:
+				if !ok(x) {
+					return false
+				}
+			case *ssa.IndexAddr:
+				if x.X != v || !ok(x) {
+					return false
+				}
+			default:
+				return false
+			}
+		}
+		return true
+	}
+	return ok(a)
 }
